@@ -274,4 +274,134 @@ Proof.
     rewrite <- (Jsum_Jscale K Kf). reflexivity.
 Qed.
 
+(* ==================================================================================================== *)
+(* MOMENTUM and MULTIPOLE MOMENT *)
+Hypothesis H2 : 1 + 1 <> 0.
+Hypothesis Hexp : forall x y, fexp K (x + y) = fexp K x * fexp K y.
+
+Lemma good_pair_wf la lb sa sb : good_pair la lb sa sb ->
+  wf_shell sa /\ wf_shell sb /\ exps_ok K sa sb /\ comps_of sa = default_comps la /\ comps_of sb = default_comps lb.
+Proof.
+  intros (Hla & Hlb & Hca & Hcb & Wa & Wb & Hex).
+  split; [now apply wf_shell_default|]. split; [now apply wf_shell_default|].
+  split; [intros a b Ha Hb; unfold psum; now apply Hex|].
+  split; unfold comps_of; [now rewrite Hca, Hla|now rewrite Hcb, Hlb].
+Qed.
+
+(* component k of an entry of [momentum_block_re] (the real matrix M of the value -i M, last axis x, y, z) *)
+Definition mom_ent (k : axis) : entry_fun := fun sa sb ma ia mb ib =>
+  nth (ax2nat k) (nth ib (nth mb (nth ia (nth ma (momentum_block_re K sa sb) []) []) []) []) 0.
+
+Lemma mom_entries_are k la lb : entries_are la lb (mom_ent k) (momk K k).
+Proof.
+  intros sa sb G ma ia mb ib Hma Hmb Hia Hib.
+  destruct (good_pair_wf la lb sa sb G) as (WSa & WSb & He & Ca & Cb).
+  pose proof (momentum_block_correct K Kf Hapx H2 sa sb ma ia mb ib WSa WSb He Hma) as Hc.
+  rewrite Ca, Cb in Hc. specialize (Hc Hia Hmb Hib). cbv zeta in Hc.
+  unfold mom_ent. change (nth (ax2nat k) (CoreDiffP.get4 [] ma ia mb ib (momentum_block_re K sa sb)) 0
+    = contracted K sa sb (cmpd la ia) (cmpd lb ib) ma mb (momk K k sa sb (cmpd la ia) (cmpd lb ib))).
+  rewrite Hc. fold (cmpd la ia) (cmpd lb ib). destruct k; reflexivity.
+Qed.
+
+(* GENERAL ROTATIONS, MomentumIntegral.construct_array_contraction: the vector of the three component blocks of the
+   original system, rotated by R, obeys the two-index law against component k of the rotated system *)
+Theorem momentum_block_rotation_law R k la lb : orthogonal K R ->
+  block_law2 R la lb
+    (fun sa sb ma ia mb ib => sum3 K (fun i => matf R k i * mom_ent i sa sb ma ia mb ib))
+    (mom_ent k).
+Proof.
+  intro HO.
+  apply (block_rotation_law_generic2 R la lb _ _
+           (fun sa sb ca cb x y => sum3 K (fun i => matf R k i * momk K i sa sb ca cb x y)) (momk K k)).
+  - unfold sum3.
+    apply (entries_are_add la lb
+             (fun sa sb ma ia mb ib => matf R k AX * mom_ent AX sa sb ma ia mb ib
+                                       + matf R k AY * mom_ent AY sa sb ma ia mb ib)
+             (fun sa sb ca cb x y => matf R k AX * momk K AX sa sb ca cb x y
+                                     + matf R k AY * momk K AY sa sb ca cb x y)).
+    + apply (entries_are_add la lb (fun sa sb ma ia mb ib => matf R k AX * mom_ent AX sa sb ma ia mb ib)
+               (fun sa sb ca cb x y => matf R k AX * momk K AX sa sb ca cb x y));
+        apply entries_are_scale, mom_entries_are.
+    + apply entries_are_scale, mom_entries_are.
+  - apply mom_entries_are.
+  - apply prim_law_of_Jsum. intros sa sb ja jb alpha beta Hp.
+    now apply (momentum_prim_rotation_covariant K Kf Hexp).
+Qed.
+
+(* ---- multipole moment: the order index rotates as well ---- *)
+Lemma contracted_fsum sa sb ca cb ma mb n (c : nat -> F) (p : nat -> F -> F -> F) :
+  contracted K sa sb ca cb ma mb (fun x y => fsum (mk n (fun i => c i * p i x y)))
+  = fsum (mk n (fun i => c i * contracted K sa sb ca cb ma mb (p i))).
+Proof.
+  induction n as [|n IH].
+  - rewrite (fsum_mk_0 K).
+    rewrite (contracted_ext K sa sb ca cb ma mb _ (fun x y => 0 * 0)) by (intros; rewrite (fsum_mk_0 K); ring).
+    rewrite (contracted_scale K Kf). ring.
+  - rewrite (fsum_mk_S K Kf), <- IH, <- (contracted_scale K Kf), <- (contracted_add K Kf).
+    apply contracted_ext. intros x y _ _. apply (fsum_mk_S K Kf).
+Qed.
+
+Definition mm_primf (C : @vec3 F) (o : comp) : prim_fun := fun sa sb ca cb alpha beta =>
+  mom_prim K (vget C 0) (vget C 1) (vget C 2) o sa sb ca cb alpha beta.
+(* entry of Moment.construct_array_contraction = [moment_block], order number d of the list [orders] *)
+Definition mm_ent (C : @vec3 F) (orders : list comp) (d : nat) : entry_fun := fun sa sb ma ia mb ib =>
+  nth d (nth ib (nth mb (nth ia (nth ma
+    (moment_block K (vget C 0) (vget C 1) (vget C 2) orders sa sb) []) []) []) []) 0.
+
+Lemma mm_entries_are C orders d la lb : (d < length orders)%nat ->
+  entries_are la lb (mm_ent C orders d) (mm_primf C (nth d orders (0, 0, 0)%nat)).
+Proof.
+  intros Hd sa sb G ma ia mb ib Hma Hmb Hia Hib.
+  destruct (good_pair_wf la lb sa sb G) as (WSa & WSb & He & Ca & Cb).
+  assert (Hne : orders <> []) by (destruct orders; [cbn in Hd; lia|discriminate]).
+  pose proof (moment_block_correct K Kf Hapx H2 (vget C 0) (vget C 1) (vget C 2) orders sa sb ma ia mb ib
+                WSa WSb He Hne Hma) as Hc.
+  rewrite Ca, Cb in Hc. specialize (Hc Hia Hmb Hib). cbv zeta in Hc. destruct Hc as [_ Hc].
+  unfold mm_ent. rewrite (Hc d Hd). reflexivity.
+Qed.
+
+(* the D-combination over the order index, for the rotated system: all orders of degree |o| are requested *)
+Definition mm_rot_ent (R : @mat3 F) (C' : @vec3 F) (o : comp) : entry_fun := fun sa sb ma ia mb ib =>
+  fsum (mk (length (default_comps (mdeg o))) (fun d' =>
+    rep_mat K R (cmpd (mdeg o) d') o * mm_ent C' (default_comps (mdeg o)) d' sa sb ma ia mb ib)).
+Definition mm_rot_primf (R : @mat3 F) (C' : @vec3 F) (o : comp) : prim_fun := fun sa sb ca cb alpha beta =>
+  fsum (mk (length (default_comps (mdeg o))) (fun d' =>
+    rep_mat K R (cmpd (mdeg o) d') o * mm_primf C' (cmpd (mdeg o) d') sa sb ca cb alpha beta)).
+
+Lemma mm_rot_entries_are R C' o la lb : entries_are la lb (mm_rot_ent R C' o) (mm_rot_primf R C' o).
+Proof.
+  intros sa sb G ma ia mb ib Hma Hmb Hia Hib. unfold mm_rot_ent, mm_rot_primf.
+  rewrite contracted_fsum. apply (fsum_mk_ext K). intros d' Hd'. f_equal.
+  apply (mm_entries_are C' (default_comps (mdeg o)) d' la lb Hd' sa sb G ma ia mb ib Hma Hmb Hia Hib).
+Qed.
+
+Lemma mm_rot_primf_Jsum R C' o sa sb ca cb alpha beta :
+  mm_rot_primf R C' o sa sb ca cb alpha beta
+  = Jsum K (fun o' => mm_primf C' o' sa sb ca cb alpha beta) (rot_expand K R o).
+Proof.
+  destruct o as [[ox oy] oz].
+  rewrite (Jsum_rot_expand K Kf _ R (mdeg (ox, oy, oz)) (ox, oy, oz))
+    by (apply default_comps_all; reflexivity).
+  unfold mm_rot_primf. now rewrite (map_as_mk _ (default_comps (mdeg (ox, oy, oz))) (0, 0, 0)%nat).
+Qed.
+
+(* GENERAL ROTATIONS, Moment.construct_array_contraction: an entry of the original block for the order o = orders[d]
+   about C against the D-combination (over the order index) of the entries of the rotated block about R C *)
+Theorem moment_block_rotation_law R C orders d la lb : orthogonal K R -> (d < length orders)%nat ->
+  block_law2 R la lb (mm_ent C orders d) (mm_rot_ent R (mapply K R C) (nth d orders (0, 0, 0)%nat)).
+Proof.
+  intros HO Hd. set (o := nth d orders (0, 0, 0)%nat).
+  apply (block_rotation_law_generic2 R la lb _ _ (mm_primf C o) (mm_rot_primf R (mapply K R C) o)).
+  - now apply mm_entries_are.
+  - apply mm_rot_entries_are.
+  - apply prim_law_of_Jsum. intros sa sb ja jb alpha beta Hp.
+    rewrite (Jsum_ext K _ (fun a' => Jsum K (fun o' => Jsum K (fun b' =>
+               mm_primf (mapply K R C) o' (rot_shell K R sa) (rot_shell K R sb) a' b' alpha beta)
+               (rot_expand K R jb)) (rot_expand K R o))).
+    2:{ intro a'. rewrite (Jsum_ext K _ _ (fun b' => mm_rot_primf_Jsum R _ o _ _ a' b' alpha beta)).
+        apply (Jsum_swap K Kf). }
+    rewrite (Jsum_swap K Kf).
+    exact (moment_prim_rotation_covariant K Kf Hexp R C o sa sb ja jb alpha beta HO Hp).
+Qed.
+
 End Block2.
